@@ -344,36 +344,47 @@ func runCase(ci *caseIn) (term string, observed interface{}, nontrivial bool, si
 		if verr == nil {
 			vld = fromReal(&vc)
 		}
+		// a Marshal error is an observation (only the quic writer returns one, for a key or value
+		// over 65535 bytes): bit 1 kv, 2 websocket URL, 4 webtransport URL, 8 quic
+		merr := 0
 		rp := p.real()
 		kvm, err := rp.MarshalKeyValues()
 		if err != nil {
-			panic("MarshalKeyValues failed: " + err.Error())
+			merr |= 1
+			kvm = nil
 		}
 		kv := sortedPairs(kvm)
 		ws := tws.NegotiationParams{NegotiationParams: p.real()}
 		wsv, err := ws.MarshalURLValues()
 		if err != nil {
-			panic("websocket MarshalURLValues failed: " + err.Error())
+			merr |= 2
+			wsv = nil
 		}
 		wt := twt.NegotiationParams{NegotiationParams: p.real()}
 		wtv, err := wt.MarshalURLValues()
 		if err != nil {
-			panic("webtransport MarshalURLValues failed: " + err.Error())
+			merr |= 4
+			wtv = nil
 		}
 		q := tquic.NegotiationParams{NegotiationParams: p.real()}
 		bin, err := q.Marshal()
 		if err != nil {
-			panic("quic Marshal failed: " + err.Error())
+			merr |= 8
+			bin = nil
 		}
-		rtKV := unmarshalKV(zeroP, kvm)
-		var rtWS, rtWT *jP
-		if v, ok := throughQuery(wsv); ok {
+		var rtKV, rtWS, rtWT, rtBin *jP
+		if merr&1 == 0 {
+			rtKV = unmarshalKV(zeroP, kvm)
+		}
+		if v, ok := throughQuery(wsv); ok && merr&2 == 0 {
 			rtWS = unmarshalWS(zeroP, v)
 		}
-		if v, ok := throughQuery(wtv); ok {
+		if v, ok := throughQuery(wtv); ok && merr&4 == 0 {
 			rtWT = unmarshalWT(zeroP, v)
 		}
-		rtBin := unmarshalBin(bin)
+		if merr&8 == 0 {
+			rtBin = unmarshalBin(bin)
+		}
 		perm := ci.Perm
 		if len(perm) != len(kv) {
 			perm = nil
@@ -393,18 +404,16 @@ func runCase(ci *caseIn) (term string, observed interface{}, nontrivial bool, si
 		jc := func(c compress.Config) *jC {
 			return &jC{Enable: c.Enable, Level: c.Level, DCT: c.DisableContextTakeover, Bits: c.WindowBits}
 		}
-		term = fmt.Sprintf("mkNegCase (InParams %s %s %s) (ObsParams %s %s %s %s %s %s %s %s %s %s %s %s %s)",
+		term = fmt.Sprintf("mkNegCase (InParams %s %s %s) (ObsParams %s %s %s %s %s %s %s %s %s %s %s %s %s %d)",
 			l.P(p), C(ci.B1), C(ci.B2),
 			l.OP(vld), l.KVs(kv), l.URL(wsv), l.URL(wtv), l.B(bin),
-			l.OP(rtKV), l.OP(rtWS), l.OP(rtWT), l.OP(rtBin), l.B(pbin), l.OP(rtPerm), C(jc(c1)), C(jc(c2)))
+			l.OP(rtKV), l.OP(rtWS), l.OP(rtWT), l.OP(rtBin), l.B(pbin), l.OP(rtPerm), C(jc(c1)), C(jc(c2)), merr)
 		same := func(a *jP) bool { return a != nil && l.P(a) == l.P(p) }
-		observed = map[string]interface{}{"validate_ok": verr == nil, "pairs": len(kv), "bin_len": len(bin),
+		observed = map[string]interface{}{"validate_ok": verr == nil, "pairs": len(kv), "bin_len": len(bin), "marshal_errors": merr,
 			"roundtrip_same": []bool{same(rtKV), same(rtWS), same(rtWT), same(rtBin), same(rtPerm)},
 			"cfg1": jc(c1), "cfg2": jc(c2)}
 		nontrivial = len(kv) >= 2 || verr != nil
-		if len(p.Tid) > 65535 || len(p.Tgid) > 65535 || len(p.Enc) > 65535 || len(p.Comp) > 65535 {
-			sig = "C17:quic-marshal-length-wraps-uint16"
-		}
+		sig = paramsSig(p)
 	case "kv":
 		m := map[string]string{}
 		var ps []pair
@@ -429,6 +438,11 @@ func runCase(ci *caseIn) (term string, observed interface{}, nontrivial bool, si
 		term = fmt.Sprintf("mkNegCase (InKV %s %s) (ObsKV %s %s %s)", l.P(init), l.KVs(ps), l.OP(rkv), l.OP(rws), l.OP(rwt))
 		observed = map[string]interface{}{"kv": rkv, "ws": rws, "wt": rwt}
 		nontrivial = len(ps) > 0
+		for _, e := range ps {
+			if !utf8.Valid(e.k) || !utf8.Valid(e.v) {
+				sig = sigF26
+			}
+		}
 	case "url":
 		vs := url.Values{}
 		var it []string
@@ -447,6 +461,14 @@ func runCase(ci *caseIn) (term string, observed interface{}, nontrivial bool, si
 			}
 			vs[string(e.K)] = vals
 			it = append(it, coqfmt.Pair(l.B(e.K), coqfmt.List(valsT)))
+			if !utf8.Valid(e.K) {
+				sig = sigF26
+			}
+			for _, v := range e.V {
+				if !utf8.Valid(v) {
+					sig = sigF26
+				}
+			}
 		}
 		rws := unmarshalWS(zeroP, vs)
 		rwt := unmarshalWT(zeroP, vs)
@@ -473,6 +495,29 @@ func runCase(ci *caseIn) (term string, observed interface{}, nontrivial bool, si
 		panic("unknown case type " + ci.T)
 	}
 	return l.wrap(term), observed, nontrivial, sig
+}
+
+// Signatures of the known findings a case can exhibit (they label the case; only a case the
+// judge flags is reported).  F26: text that is not UTF-8 is replaced by U+FFFD (writer and the
+// key/value / URL readers) instead of being refused.  F27: level / window bits outside their
+// range are accepted by Validate when no compression type is named, yet CompressConfig acts on them.
+// (F25, a text longer than 65535 bytes truncated by the quic writer, is fixed in /repo: the
+// long-text cases now check that Marshal refuses.)
+const (
+	sigF26 = "F26:non-utf8-text-replaced"
+	sigF27 = "F27:level-window-unchecked-without-type"
+)
+
+func paramsSig(p *jP) string {
+	var sigs []string
+	if !utf8.Valid(p.Enc) || !utf8.Valid(p.Comp) || !utf8.Valid(p.Tid) || !utf8.Valid(p.Tgid) {
+		sigs = append(sigs, sigF26)
+	}
+	out := func(v *int, lo, hi int) bool { return v != nil && (*v < lo || *v > hi) }
+	if len(p.Comp) == 0 && (out(p.Level, 0, 9) || out(p.Bits, 0, 32)) {
+		sigs = append(sigs, sigF27)
+	}
+	return strings.Join(sigs, "+")
 }
 
 const dummyTerm = "mkNegCase (InBin []) (ObsBin (Some p0))"
